@@ -136,6 +136,7 @@ pub fn generate(em: &mut Emitter, seed: u64, thorough: bool) {
         let nrep = 1 + g.rng.below(5) as usize;
         let pre = g.straight(3).0;
         let post = g.straight(2).0;
+        let straight_body = g.straight(4).0;
         if body.contains("clk") || pre.contains("clk") || post.contains("clk") {
             continue;
         }
@@ -153,8 +154,8 @@ pub fn generate(em: &mut Emitter, seed: u64, thorough: bool) {
         // injectors whose effect the caller observes afterwards through the advice stack
         let (tail, observe) = match rng.below(4) {
             0 => ("", ""),
-            1 => (" adv.push_u64div", " adv_push.2 drop drop"),
-            2 => (" emit.5 adv.push_u64div trace.2", " adv_push.1 drop"),
+            1 => (" push.3.0.7.0 adv.push_u64div", " adv_push.2 drop drop dropw"),
+            2 => (" push.9.0.4.0 emit.5 adv.push_u64div trace.2", " adv_push.1 drop dropw"),
             _ => (" trace.9", ""),
         };
         let body = format!("{}{}", body, tail);
@@ -165,6 +166,19 @@ pub fn generate(em: &mut Emitter, seed: u64, thorough: bool) {
             meta += 1;
             if strip_clk(&x) != strip_clk(&y) {
                 em.oracle_failures.push(format!("C06 exec differs from inlined body: `{}` -> {} vs {}", c, x, y));
+            }
+        }
+        // the same with a straight-line procedure body (a single span), where an assembler may merge
+        // the callee's operations into the caller's span
+        let sbody = format!("{}{}", straight_body, tail);
+        if !sbody.contains("clk") {
+            let c = format!("proc.f {} end begin {} exec.f {} exec.f end", sbody, pre, post);
+            let d = format!("begin {} {} {} {} end", pre, sbody, post, sbody);
+            if let (Some(x), Some(y)) = (run_src(&c, &st, &adv), run_src(&d, &st, &adv)) {
+                meta += 1;
+                if strip_clk(&x) != strip_clk(&y) {
+                    em.oracle_failures.push(format!("C06 exec differs from inlined body: `{}` -> {} vs {}", c, x, y));
+                }
             }
         }
     }
